@@ -66,6 +66,8 @@ OBLIGATIONS = [
     kani("c10_orientation_of_wall", ["C10", "C11"], "C10.wall", "Orientation::from(&Wall) / Tilt::from(&Wall)"),
     kani("c11_poly_degenerate", ["C11"], "C11.poly.degenerate", "Polygon::area / perimeter", bounded="0 and 1 vertex"),
     kani("c13_aabb_slab_exact", ["C13"], "C13.aabb.slab.exact", "AABB::intersects", bounded="integer boxes / origins in [-20,20], direction components in {-1,0,1}: all products exact", timeout=900),
+    kani("c13_pip_triangle_3", ["C13"], "C13.pip.triangle", "bemodel::energy::raytracing::ray::point_in_poly", bounded="triangles with integer corners in [-3,3]^2, integer points off the side lines (all of them)", timeout=600),
+    kani("c13_pip_triangle_5", ["C13"], "C13.pip.triangle", "bemodel::energy::raytracing::ray::point_in_poly", tier="thorough", bounded="triangles with integer corners in [-5,5]^2, integer points off the side lines (all of them)", timeout=1800),
     # ---- C06 leaves -----------------------------------------------------------------------------------
     kani("c06_fround2_contract", ["C06", "C07", "C08"], "C06.fround2", "bemodel::utils::fround2 (kani::requires/ensures, proof_for_contract)", timeout=600),
     kani("c06_fround3_contract", ["C06"], "C06.fround3", "bemodel::utils::fround3 (kani::requires/ensures, proof_for_contract)", tier="thorough", timeout=1800),
@@ -115,6 +117,7 @@ OBLIGATIONS = [
     native("n_c08_kdata_bridges", ["C08"], "C08.kdata.bridges", "KData::from(&EnergyProps)", EN + "n_c08_kdata_bridges"),
     kani("c04_skip_default_pairs", ["C04"], "C04.skip", "bemodel::utils::{multiplier_is_1, default_1, is_true, default_true, is_default} (the skip_serializing_if / default pairs of Space, ThermalBridge, Meta)", timeout=600),
     native("n_c04_roundtrip", ["C04"], "C04.roundtrip", "Model::as_json / Model::from_json (serde derive attributes of every model type)", RN + "n_c04_roundtrip"),
+    native("n_c04_edited_models", ["C04"], "C04.edited", "Model::as_json / Model::from_json on models with one rewritten JSON value", RN + "n_c04_edited_models"),
     native("n_c04_shipped_models", ["C04"], "C04.shipped", "Model::from_json / Model::as_json on bemodel/tests/data/*.json", RN + "n_c04_shipped_models"),
     native("n_c11_poly", ["C11"], "C11.poly", "Polygon::area / Polygon::perimeter", RN + "n_c11_poly"),
     native("n_c11_poly_large", ["C11"], "C11.poly.large", "Polygon::area / Polygon::perimeter", RN + "n_c11_poly_large"),
@@ -230,7 +233,7 @@ MANIFEST_TEXT = {
             "text": "Bounded: every shipped project (12 .ctehexml, 56 legacy .cte; 62 convert) yields a model whose 15 id collections are duplicate- and nil-free and whose every listed link resolves (own oracle, plus Model::check silent); every referenced definition of every shipped project renamed (two ways) or removed, one at a time (7458 edited projects): the outcome is an error, or a closed model that has lost none of the optional links of the intact project; the first number of every 6th line (thorough: every line, 229 000 projects) rewritten to -7 / 0 / 100 / 1 / 1e39, and fins / overhangs (incl. symmetric fins) written on every window: still closed - ids of generated shades included - or an error. No obligation is discharged deductively: the converter is String-keyed BTreeMap lookups over the parser's data and md5-of-Debug-text ids, beyond Kani (symbolic Data infeasible) and Verus (iterator / str code).",
             "note": "Exhaustive only over the shipped corpus and its single-definition edits; uniqueness of md5-derived ids is observed, not proved. " + _TB},
     "C04": {"technique": "Kani proof of the serde helper pairs (a value is skipped only if it is the value the default helper gives back, every f32 / bool) + contract on the pair Model::as_json / Model::from_json (from_json(as_json(m)) == m in every field, as_json idempotent, shipped files re-serialise to the same JSON value), enumerated on the real serde code over a model with every element kind and all single / pairs of 34 optional-or-defaulted field flips (bounded stand-in)",
-            "text": "Bounded: a generated model carrying every collection, both material variants, overrides and the 'extra' block, with none / each one / each pair of 34 optional or defaulted fields flipped between absent-or-default and present-and-different (596 distinct models): loading back the serialised text gives a model equal in every field (Debug text of the whole model), and serialising again gives the identical text. The 7 shipped model files load and re-serialise to the same JSON value (numbers compared as f32), no key dropped or added. Deductive part: multiplier_is_1 / default_1, is_true / default_true and is_default agree for every f32 and bool (Kani). Which field carries which pair lives in serde derive attributes, and number formatting in serde_json: neither verifier can read those, so the rest is bounded.",
+            "text": "Bounded: a generated model carrying every collection, both material variants, overrides and the 'extra' block, with none / each one / each pair of 34 optional or defaulted fields flipped between absent-or-default and present-and-different (596 distinct models): loading back the serialised text gives a model equal in every field (Debug text of the whole model), and serialising again gives the identical text. The two extreme models with one value of their JSON text rewritten (every number -> 0 / 1 / negated, string -> \"\", flag flipped, key removed, list emptied: 758 models that still load) round-trip as well. The 7 shipped model files load and re-serialise to the same JSON value (numbers compared as f32), no key dropped or added. Deductive part: multiplier_is_1 / default_1, is_true / default_true and is_default agree for every f32 and bool (Kani). Which field carries which pair lives in serde derive attributes, and number formatting in serde_json: neither verifier can read those, so the rest is bounded.",
             "note": "Equality is judged on the Debug rendering (covers every field that derives Debug - all model types do). " + _TB},
     "C05": {"technique": "contracts on Model::try_from + as_json (a function of the project text only) and Model::energy_indicators (a function of the model only), evaluated on the real code by repetition, a fresh process, 16 threads and all ordered pairs of histories (bounded stand-in); no verifier here reasons about threads or processes",
             "text": "Bounded: each of the 12 shipped projects converts to byte-identical JSON twice in one process, in a fresh process and on 16 threads at once; adding an unrelated library definition (14 block kinds x 3 positions x 12 projects) changes no existing id; the 6 (project, reference model) pairs of the Makefile convert exactly to the shipped models; indicators of each of the 7 shipped models are the same JSON value alone, after any other model, and on 16 threads. Key order of map-typed results is not compared (not a value).",
